@@ -186,7 +186,7 @@ inline unsigned seen_term(const ctpg::term_value<unsigned>& t) {
     else hv_S.flags |= 4u;
     return t.get_value();
 }
-struct trk; inline unsigned arg(const trk& t);
+struct trk; inline unsigned arg(const trk& t); struct ctrk; inline unsigned arg(const ctrk& t);
 inline unsigned arg(unsigned v) { return v; }
 inline unsigned arg(const ctpg::term_value<unsigned>& t) { return seen_term(t); }
 // rule value: ((..((R*P + a1)*P + a2)..)*P + ak), R = 7919*(rule+1), P = 31 (mod 2^32)
@@ -220,6 +220,18 @@ struct trk {
     trk& operator=(trk&& o) { if (o.st != 1) hv_S.flags |= 16u; v = o.v; st = o.st; o.st = 2; hv_S.moves++; return *this; }
 };
 inline unsigned arg(const trk& t) { if (t.st != 1) hv_S.flags |= 16u; return t.v; }
+// copyable variant: a copy is legal C++ but must not happen on the value path; it is counted
+struct ctrk {
+    unsigned v = 0, st = 0;
+    ctrk() = default;
+    explicit ctrk(unsigned v) : v(v), st(1) {}
+    ctrk(const ctrk& o) : v(o.v), st(o.st) { hv_S.flags |= 32u; }
+    ctrk& operator=(const ctrk& o) { v = o.v; st = o.st; hv_S.flags |= 32u; return *this; }
+    ctrk(ctrk&& o) : v(o.v), st(o.st) { if (o.st != 1) hv_S.flags |= 16u; o.st = 2; hv_S.moves++; }
+    ctrk& operator=(ctrk&& o) { if (o.st != 1) hv_S.flags |= 16u; v = o.v; st = o.st; o.st = 2; hv_S.moves++; return *this; }
+};
+inline unsigned arg(const ctrk& t) { if (t.st != 1) hv_S.flags |= 16u; return t.v; }
+template<typename VT, typename... A> inline VT redv(unsigned rule, const A&... a) { return VT(red(rule, a...)); }
 template<typename... A>
 inline trk redt(unsigned rule, const A&... a) { return trk(red(rule, a...)); }
 // ---- contexts (C13)
@@ -248,6 +260,24 @@ struct ans_lexer {
         return ctpg::recognized_term(ctpg::size16_t(hv_L.idx[pos]), hv_L.len[pos]);
     }
 };
+// ---- a caller buffer that is a slice of larger storage: N bytes of text followed by bytes that are NOT part of the buffer (not NUL).
+//      Reading at or beyond end() is flagged.  The stack types are specialised like cstring_buffer's so that the fixed-size stacks are used.
+template<std::size_t N> struct slice_buf {
+    char data[N + 2] = {};
+    struct iterator {
+        const char* ptr; const char* lim;
+        char operator *() const { if (ptr >= lim) hv_S.flags |= 64u; return *ptr; }
+        iterator& operator ++() { ++ptr; return *this; }
+        iterator operator ++(int) { iterator i(*this); ++ptr; return i; }
+        bool operator == (const iterator& o) const { return ptr == o.ptr; }
+        bool operator != (const iterator& o) const { return ptr != o.ptr; }
+        iterator& operator += (std::size_t len) { ptr += len; return *this; }
+        iterator operator + (std::size_t len) const { iterator i(*this); i.ptr += len; return i; }
+    };
+    iterator begin() const { return iterator{ data, data + N }; }
+    iterator end() const { return iterator{ data + N, data + N }; }
+    std::string_view get_view(iterator s, iterator e) const { return std::string_view(s.ptr, e.ptr - s.ptr); }
+};
 // token-level custom lexer: byte 'a'+k is term k (k < NT), length 1; anything else: no match
 template<unsigned NT>
 struct tok_lexer {
@@ -259,4 +289,8 @@ struct tok_lexer {
     }
 };
 }
+namespace ctpg { namespace detail {
+template<std::size_t N, std::size_t E> struct parse_table_cursor_stack_type<hv::slice_buf<N>, E> { using type = stdex::cvector<size16_t, N + E + 2>; };
+template<std::size_t N, std::size_t E, typename V> struct parser_value_stack_type<hv::slice_buf<N>, E, V, std::enable_if_t<stdex::is_cvector_compatible<V>::value>> { using type = stdex::cvector<V, N + E + 2>; };
+} }
 #endif
